@@ -370,3 +370,22 @@ func vProd(s []int) int {
 }
 
 var _ = unsafe.Pointer(nil)
+
+// vHasTag tells whether the instance is built with the given build tag (cfg "tags", comma separated).
+func vHasTag(tag string) bool {
+	tags := vCfgStr("tags")
+	for len(tags) > 0 {
+		i := 0
+		for i < len(tags) && tags[i] != ',' {
+			i++
+		}
+		if tags[:i] == tag {
+			return true
+		}
+		if i == len(tags) {
+			break
+		}
+		tags = tags[i+1:]
+	}
+	return false
+}
